@@ -376,6 +376,40 @@ func init() {
 					c.NonTrivial("shadow", fmt.Sprintf("%T", x))
 				}
 			}
+			if c.Idx%64 == 12 {
+				// types with both MarshalJSON and MarshalText (pointer receivers, value receivers,
+				// one of each): as by-value and pointer members of structs with one and several
+				// members, elements, map values and keys, reached by value and through a pointer
+				type both2 struct {
+					A int
+					P zoo.BothP
+					V zoo.BothV
+					J zoo.BothJV
+					T zoo.BothTV
+					Z string
+				}
+				type both1 struct{ P zoo.BothP }
+				type bothPtr struct {
+					P *zoo.BothP
+					V *zoo.BothV
+					J *zoo.BothJV
+					T *zoo.BothTV `json:"t,omitempty"`
+				}
+				b2 := both2{1, zoo.BothP{N: 2}, zoo.BothV{N: 3}, zoo.BothJV{N: 4}, zoo.BothTV{N: 5}, "z"}
+				boths := []any{b2, &b2, both1{zoo.BothP{N: 6}}, &both1{zoo.BothP{N: 7}}, bothPtr{&zoo.BothP{N: 8}, &zoo.BothV{N: 9}, &zoo.BothJV{N: 10}, &zoo.BothTV{N: 20}},
+					[]zoo.BothP{{N: 11}, {N: 12}}, []*zoo.BothP{{N: 13}}, &[2]zoo.BothTV{{N: 14}}, map[string]zoo.BothP{"k": {N: 15}}, map[string]*both2{"k": &b2}, []both2{b2},
+					[]any{b2, &b2, zoo.BothP{N: 16}, &zoo.BothP{N: 17}, zoo.BothV{N: 18}}, map[zoo.BothV]int{{N: 19}: 1}, struct{ I any }{&b2}}
+				for si, x := range boths {
+					if !c.Cur(7200+si, fmt.Sprintf("shapes=core\ntypes with both marshalers: %T", x)) {
+						continue
+					}
+					v := reflect.ValueOf(x)
+					for ci := range encCfgs {
+						encCompare(c, 7200+si, "enc-diff", &encCfgs[ci], "direct", x, v.Type(), v, "")
+					}
+					c.NonTrivial("both", fmt.Sprintf("%T", x))
+				}
+			}
 			for k := 0; k < per; k++ {
 				t, feat := c01Type(c, k)
 				vo := gen.ValOpts{NilHeavy: k%3 == 0}
